@@ -209,6 +209,8 @@ impl IdMap {
             let page = pager.read_page(PageId::new(start.as_u64() + i))?;
             pager.write_page(PageId::new(new_start.as_u64() + i), &page)?;
         }
+        // The copy must be on disk before the meta page points at it.
+        pager.sync()?;
         pager.set_i2e_start_page(Some(new_start))?;
         self.i2e_start = Some(new_start);
         for i in 0..used_pages {
